@@ -661,7 +661,8 @@ def run_isolated(case):
             os._exit(code)
     os.close(wfd)
     buf = b""
-    deadline = time.monotonic() + _budget(case)
+    deadline = time.monotonic() + (_budget(case) if _HANGS[0] == 0 else min(_budget(case), 20.0 + 4 * sum(
+        case["dur"].get(str(i), 0) for i in case["ids"]) / 1000.0))
     hung = False
     try:
         while True:
@@ -894,8 +895,17 @@ def _key(case):
     return json.dumps(case, sort_keys=True)
 
 
+_HANGS = [0]        # runs of this worker process that did not return: after a few, the check stops paying for more
+
+
 def impl(case, stash=True):
+    if _HANGS[0] >= 4:
+        # the pool does not terminate on this code: four witnesses per worker are enough, the remaining cases of the
+        # shard are not run (a check must end in minutes also when it fails)
+        return dict(end="skipped-after-hangs", delivered=None, diag={})
     res, log = run_isolated(case)
+    if res.get("end") == "hang":
+        _HANGS[0] += 1
     out = dict(end=res["end"], delivered=res.get("delivered"))
     if case["api"] == "run" and "success" in res:
         out["success"] = res["success"]
@@ -1021,6 +1031,8 @@ def oracle(case, r):
     exp = {i: expected_out(case, i) for i in set(ids)}
     raising = [i for i in ids if exp[i][0] == "exc"]
     end = r.get("end")
+    if end == "skipped-after-hangs":
+        return []
     if end == "hang":
         return [dict(sig="no-termination", what="irun/run did not return within the time budget (n=%d, parallel=%d)" % (len(ids), case["parallel"]))]
     if isinstance(end, list) and end[0] == "harness-exception":
